@@ -320,6 +320,13 @@ class Arith:
             return b
         if same(a, b):
             return a
+        if is_sym(c) and z3.is_not(c):
+            return self.ite(c.arg(0), b, a)
+        # ite(c, ite(c, x, _), y) -> ite(c, x, y) ; ite(c, x, ite(c, _, y)) -> ite(c, x, y)
+        if is_sym(a) and z3.is_app_of(a, z3.Z3_OP_ITE) and a.arg(0).eq(c):
+            return self.ite(c, a.arg(1), b)
+        if is_sym(b) and z3.is_app_of(b, z3.Z3_OP_ITE) and b.arg(0).eq(c):
+            return self.ite(c, a, b.arg(2))
         if isinstance(a, Partial) or isinstance(b, Partial):
             av, ad = (a.value, a.defined) if isinstance(a, Partial) else (a, True)
             bv, bd = (b.value, b.defined) if isinstance(b, Partial) else (b, True)
